@@ -53,10 +53,12 @@ def real_build(name, direction, m, uid, tid, pid):
 
 
 def has_delim(frame):
-    """is this binary frame inside the scope of the known finding binary-framer-escaping: a delimiter byte after the unit id
-    (function code, data or CRC: the sender doubles it only in the data, the receiver never un-doubles), or a unit id of
-    0x7D.  A unit id of 0x7B alone is outside it: such frames are built and received like any other."""
-    return any(b in (0x7B, 0x7D) for b in frame[2:-1]) or (len(frame) > 2 and frame[1] == 0x7D)
+    """is this binary frame inside the scope of the known finding binary-framer-escaping: a delimiter byte in the function code
+    or data (the sender doubles it, the receiver never un-doubles), an END delimiter 0x7D in the CRC (sent raw, the receiver
+    stops there), or a unit id of 0x7D.  Outside it (measured on the unchanged code: built, received whole, at every cut and
+    byte by byte like any other frame): a unit id of 0x7B, and a START delimiter 0x7B in the CRC bytes."""
+    return (any(b in (0x7B, 0x7D) for b in frame[2:-3]) or any(b == 0x7D for b in frame[-3:-1])
+            or (len(frame) > 2 and frame[1] == 0x7D))
 
 
 def deliveries(calls):
